@@ -80,6 +80,19 @@ CHECKS = {
          "rational arithmetic, expected distance by a textbook xy2d reference; argument compared before/after.",
          "Exact equality is only claimed where the extent is a power of two and centres dyadic (all enumerated scenes).",
          "DESIGN.md section 3/C08"),
+ "C16": ("model_checking", "E2",
+         "explicit-state BFS over derivation histories on the real arrays with a list-of-ids reference model",
+         "Breadth-first search over all histories (depth 2 with the full slice menu, depth 3 with the reduced one in "
+         "thorough) of integer indexing, slices with any step, every boolean mask, take with/without fill, "
+         "concatenations, copy, iteration, pickle, parquet, GeoSeries iloc/loc and GeoDataFrame row selection from 14 "
+         "base arrays. States are deduplicated on (element ids, pyarrow offset, buffer sizes) - physical layout is "
+         "part of the state because it is what must not matter. On every transition the elements are compared with "
+         "the model; in every new state every derived quantity (isna, bounds, total_bounds, length, area, 9 box "
+         "tests, point-vs-shape tests, Hilbert distance, equality with a fresh array, scalars, iteration) is compared "
+         "with the same selection of the base array's, and invalid requests must raise the pandas error classes.",
+         "Every transition runs the real implementation, so traces_validated_against_impl == transitions. Base values "
+         "are tied to exact oracles by C01/C02/C13/C14. Depth bound stated in evidence.",
+         "DESIGN.md section 3/C16"),
 }
 
 NOT_YET = {}
